@@ -7,8 +7,11 @@
 (*                                                                         *)
 (* Anchors: core/state_transition.go (preCheck, buyGas, TransitionDb,      *)
 (* refundGas), core/evm.go (CanTransfer, Transfer), core/vm/evm.go (Call,  *)
-(* create, CreateETX, snapshot/revertToSnapshot), core/vm/instructions.go  *)
-(* (opCall, opCreate, opSuicide, opETX, opConvert), core/vm/contracts.go   *)
+(* CallCode, DelegateCall, StaticCall, create, Create2, CreateETX,         *)
+(* snapshot/revertToSnapshot), core/vm/interpreter.go (readOnly: write     *)
+(* protection), core/vm/instructions.go (opCall, opCallCode,               *)
+(* opDelegateCall, opStaticCall, opCreate, opCreate2, opSuicide, opETX,    *)
+(* opConvert), core/vm/contracts.go                                        *)
 (* (RunLockupContract, UnwrapQi, ClaimCoinbaseLockup),                     *)
 (* core/state_processor.go (ApplyTransaction, applyTransaction,            *)
 (* prepareApplyETX).                                                       *)
@@ -50,6 +53,11 @@ CONSTANTS
     TxKinds,       \* subset of {"call","create","sdata","kquai","xsend","inbound"}
     OpKinds,       \* subset of {"ETX","CONVERT","XCALL","UNWRAP","CLAIM"}
     DestClasses, AmtClasses, GlClasses, FeeClasses, AlClasses,
+    FrameKinds,    \* subset of {"call","delegate","callcode","static","create","create2"}: frame-entering instructions
+    CallTargets,   \* targets of CALL / DELEGATECALL / CALLCODE / STATICCALL inside frames ({} stands for every account)
+    TxTargets,     \* recipients of transactions / inbound ETXs ({} stands for every account)
+    Benefs,        \* beneficiaries of SELFDESTRUCT ({} stands for every account)
+    WpOps,         \* state-modifying instructions attempted inside a read-only (STATICCALL) context
     MaxDepth,      \* call depth bound
     MaxFrameOps,   \* operations per frame bound
     MaxTx,         \* transactions per behaviour
@@ -59,8 +67,13 @@ CONSTANTS
 MAXU == -1   \* 2^256 - 1
 BIG  == -2   \* a number above every balance but far below 2^256 (2^64 * fee rate)
 
-Special == {"Z", "F", "N", "Q"}   \* zero address, fresh address, address created by CREATE, kQuai setting address
+Special == {"Z", "F", "N", "Q"}   \* zero address, fresh address, address created by CREATE / CREATE2, kQuai setting address
 Acct == EOAs \cup Contracts \cup Special
+AllButN == Acct \ {"N"}
+CallTargetSet == IF CallTargets = {} THEN AllButN ELSE CallTargets
+TxTargetSet   == IF TxTargets = {} THEN AllButN ELSE TxTargets
+BenefSet      == IF Benefs = {} THEN AllButN ELSE Benefs
+AllWpOps == {"call", "create", "create2", "sd", "ETX", "CONVERT", "sstore", "log"}
 
 \* ---- fork regimes, by prime terminus number
 \*  "A" < ControllerKickInBlock ; "B" conversions allowed ; "C" KawPowForkBlock hold interval (as "A") ; "D" after it
@@ -196,7 +209,12 @@ Snap == [bal |-> bal, code |-> code, ncreated |-> ncreated, sui |-> sui, wq |-> 
 
 \* starved: CREATE hands 63/64 of the creator's gas to the init code; when that halts exceptionally the creator has
 \* (next to) no gas left.  The specification does not model gas inside a transaction, so such a frame may only end.
-Frame(self, kind, snap) == [self |-> self, kind |-> kind, snap |-> snap, nops |-> 0, starved |-> FALSE]
+\* self  : the executing ADDRESS (whose balance CALL value / ETX / CONVERT / SELFDESTRUCT take, who owns the wrapped Qi and
+\*         the lockups claimed); DELEGATECALL and CALLCODE run the callee's code with the CALLER's self
+\* kind  : "call" | "delegate" | "callcode" | "static" | "create" | "create2" | "xsend"
+\* static: the interpreter is read-only (a STATICCALL frame and everything below it)
+Frame(self, kind, snap, st) == [self |-> self, kind |-> kind, snap |-> snap, nops |-> 0, starved |-> FALSE, static |-> st]
+IsCreateKind(k) == k \in {"create", "create2"}
 
 \* Top-level message call: TransitionDb -> evm.Call(sender, to, data, gas, value).  Observed at CaptureStart
 \* (after the value transfer, before the first instruction).
@@ -208,7 +226,7 @@ TopCall ==
            b2 == [b1 EXCEPT ![t] = @ + tx.v]
            enter == code[t] = "host"
        IN  /\ bal' = b2
-           /\ frames' = IF enter THEN <<Frame(t, "call", Snap)>> ELSE <<>>
+           /\ frames' = IF enter THEN <<Frame(t, "call", Snap, FALSE)>> ELSE <<>>
            /\ tx' = [tx EXCEPT !.phase = IF enter THEN "exec" ELSE "ending",
                                !.status = IF enter THEN "none" ELSE "ok"]
            /\ Log(Rec("top", tx.payer, t, tx.v, 0, 0, [k |-> tx.kind, enter |-> enter]),
@@ -230,7 +248,7 @@ TopCreate ==
            b2 == [b1 EXCEPT !["N"] = @ + tx.v]
        IN  /\ bal' = b2
            /\ ncreated' = TRUE
-           /\ frames' = <<Frame("N", "create", Snap)>>
+           /\ frames' = <<Frame("N", "create", Snap, FALSE)>>
            /\ tx' = [tx EXCEPT !.phase = "exec"]
            /\ Log(Rec("top", tx.payer, "N", tx.v, 0, 0, [k |-> "create", enter |-> TRUE]),
                   MkObs(b2, NEtx(etx), wq, lock, -1, -1, "enter"), 1)
@@ -284,10 +302,13 @@ Cur == frames[Len(frames)]
 CanOp == InFrame /\ Cur.nops < MaxFrameOps /\ ~Cur.starved
 Bump == [frames EXCEPT ![Len(frames)].nops = @ + 1]
 
+InStatic == frames # <<>> /\ Cur.static
+
 \* opCall -> evm.Call: balance check, snapshot, (account creation), Transfer, run code.
 \* Observed at the callee's first instruction if a frame is entered, else after the CALL instruction.
+\* (A CALL with value inside a read-only context is a write-protection halt: WriteProtected("call").)
 Call(t, v) ==
-    /\ CanOp /\ t \in Acct
+    /\ CanOp /\ t \in Acct /\ ~(Cur.static /\ v > 0)
     /\ LET s == Cur.self IN
        IF v > 0 /\ bal[s] < v
        THEN /\ frames' = Bump
@@ -299,33 +320,82 @@ Call(t, v) ==
                 enter == code[t] = "host" /\ Len(frames) < MaxDepth
             IN  /\ code[t] = "host" => Len(frames) < MaxDepth
                 /\ bal' = b2
-                /\ frames' = IF enter THEN Append(Bump, Frame(t, "call", Snap)) ELSE Bump
+                /\ frames' = IF enter THEN Append(Bump, Frame(t, "call", Snap, Cur.static)) ELSE Bump
                 /\ Log(Rec("call", s, t, v, 0, 0, [k |-> "call", enter |-> enter]),
                        MkObs(b2, NEtx(etx), wq, lock, IF enter THEN -1 ELSE 1, IF enter THEN -1 ELSE 1,
                              IF enter THEN "enter" ELSE "plain"), 1)
     /\ UNCHANGED <<code, ncreated, sui, wq, lock, tx, etx, op, gh, devs, blockOut, survAll, bdevs, ntx>>
 
-\* opCreate -> evm.Create -> evm.create
-Create(v) ==
-    /\ CanOp /\ ~ncreated /\ Len(frames) < MaxDepth
+
+\* opDelegateCall -> evm.DelegateCall: snapshot, run the CALLEE's code as the CALLER: address, caller and value of the
+\* parent frame are kept, nothing is transferred.  An ETX / CONVERT / lockup operation / SELFDESTRUCT / CALL with value
+\* inside acts on the parent contract's balance and assets.
+DelegateCall(t) ==
+    /\ CanOp /\ t \in Acct
+    /\ LET s == Cur.self
+           enter == code[t] = "host" /\ Len(frames) < MaxDepth
+       IN  /\ code[t] = "host" => Len(frames) < MaxDepth
+           /\ frames' = IF enter THEN Append(Bump, Frame(s, "delegate", Snap, Cur.static)) ELSE Bump
+           /\ Log(Rec("dcall", s, t, 0, 0, 0, [k |-> "dcall", enter |-> enter]),
+                  MkObs(bal, NEtx(etx), wq, lock, IF enter THEN -1 ELSE 1, IF enter THEN -1 ELSE 1,
+                        IF enter THEN "enter" ELSE "plain"), 1)
+    /\ UNCHANGED <<bal, code, ncreated, sui, wq, lock, tx, etx, op, gh, devs, blockOut, survAll, bdevs, ntx>>
+
+\* opCallCode -> evm.CallCode: CanTransfer(caller, value) (although nothing moves: the value is "transferred" from the
+\* caller to itself), snapshot, run the callee's code as the caller with CALLVALUE = value.
+\* (CALLCODE with value is not a write in a read-only context: only CALL is checked by the interpreter.)
+CallCode(t, v) ==
+    /\ CanOp /\ t \in Acct
+    /\ LET s == Cur.self IN
+       IF bal[s] < v
+       THEN /\ frames' = Bump
+            /\ Log(Rec("ccall", s, t, v, 0, 0, [k |-> "ccall", enter |-> FALSE]),
+                   MkObs(bal, NEtx(etx), wq, lock, 0, 1, "insufficient"), 1)
+       ELSE LET enter == code[t] = "host" /\ Len(frames) < MaxDepth
+            IN  /\ code[t] = "host" => Len(frames) < MaxDepth
+                /\ frames' = IF enter THEN Append(Bump, Frame(s, "callcode", Snap, Cur.static)) ELSE Bump
+                /\ Log(Rec("ccall", s, t, v, 0, 0, [k |-> "ccall", enter |-> enter]),
+                       MkObs(bal, NEtx(etx), wq, lock, IF enter THEN -1 ELSE 1, IF enter THEN -1 ELSE 1,
+                             IF enter THEN "enter" ELSE "plain"), 1)
+    /\ UNCHANGED <<bal, code, ncreated, sui, wq, lock, tx, etx, op, gh, devs, blockOut, survAll, bdevs, ntx>>
+
+\* opStaticCall -> evm.StaticCall: snapshot, run the callee (as itself, value 0) with interpreter.readOnly set; the
+\* flag stays set for every frame below.
+StaticCall(t) ==
+    /\ CanOp /\ t \in Acct
+    /\ LET s == Cur.self
+           enter == code[t] = "host" /\ Len(frames) < MaxDepth
+       IN  /\ code[t] = "host" => Len(frames) < MaxDepth
+           /\ frames' = IF enter THEN Append(Bump, Frame(t, "static", Snap, TRUE)) ELSE Bump
+           /\ Log(Rec("scall", s, t, 0, 0, 0, [k |-> "scall", enter |-> enter]),
+                  MkObs(bal, NEtx(etx), wq, lock, IF enter THEN -1 ELSE 1, IF enter THEN -1 ELSE 1,
+                        IF enter THEN "enter" ELSE "plain"), 1)
+    /\ UNCHANGED <<bal, code, ncreated, sui, wq, lock, tx, etx, op, gh, devs, blockOut, survAll, bdevs, ntx>>
+
+\* opCreate -> evm.Create -> evm.create ; opCreate2 -> evm.Create2 -> evm.create (address from salt and code hash, no
+\* address grinding: the driver supplies a salt whose address lies in this zone's Quai ledger).  kind = "create" | "create2"
+CreateK(kind, v) ==
+    /\ CanOp /\ ~ncreated /\ Len(frames) < MaxDepth /\ ~Cur.static
     /\ LET s == Cur.self IN
        IF bal[s] < v
        THEN /\ frames' = Bump
             /\ UNCHANGED <<bal, ncreated>>
-            /\ Log(Rec("create", s, "N", v, 0, 0, [k |-> "create", enter |-> FALSE]),
+            /\ Log(Rec(kind, s, "N", v, 0, 0, [k |-> kind, enter |-> FALSE]),
                    MkObs(bal, NEtx(etx), wq, lock, 0, 1, "insufficient"), 1)
        ELSE LET b1 == [bal EXCEPT ![s] = @ - v]
                 b2 == [b1 EXCEPT !["N"] = @ + v]
             IN  /\ bal' = b2
                 /\ ncreated' = TRUE
-                /\ frames' = Append(Bump, Frame("N", "create", Snap))
-                /\ Log(Rec("create", s, "N", v, 0, 0, [k |-> "create", enter |-> TRUE]),
+                /\ frames' = Append(Bump, Frame("N", kind, Snap, FALSE))
+                /\ Log(Rec(kind, s, "N", v, 0, 0, [k |-> kind, enter |-> TRUE]),
                        MkObs(b2, NEtx(etx), wq, lock, -1, -1, "enter"), 1)
     /\ UNCHANGED <<code, sui, wq, lock, tx, etx, op, gh, devs, blockOut, survAll, bdevs, ntx>>
+Create(v)  == CreateK("create", v)
+Create2(v) == CreateK("create2", v)
 
 \* CREATE inside a frame finding no address: status 0, nothing else (the gas handed to it is lost)
 Create_NoAddress(v) ==
-    /\ GrindFail /\ CanOp /\ ~ncreated /\ bal[Cur.self] >= v
+    /\ GrindFail /\ CanOp /\ ~ncreated /\ bal[Cur.self] >= v /\ ~Cur.static
     /\ frames' = Bump
     /\ Log(Rec("create", Cur.self, "N", v, 0, 0, [k |-> "create", enter |-> FALSE]),
            MkObs(bal, NEtx(etx), wq, lock, 0, 1, "no-address"), 1)
@@ -337,7 +407,7 @@ Pop(ok, hard) ==
     IF Len(frames) = 1
     THEN /\ frames' = <<>>
          /\ tx' = [tx EXCEPT !.phase = "ending", !.status = IF ok THEN "ok" ELSE "failed", !.hard = hard]
-    ELSE /\ frames' = PopTo(Len(frames) - 1, hard /\ Cur.kind = "create")
+    ELSE /\ frames' = PopTo(Len(frames) - 1, hard /\ IsCreateKind(Cur.kind))
          /\ UNCHANGED tx
 
 \* STOP (in init code: an empty contract is deployed)
@@ -349,7 +419,7 @@ Stop ==
 
 \* RETURN of a small runtime code from init code: code stored, gas paid
 ReturnCode ==
-    /\ InFrame /\ Cur.kind = "create"
+    /\ InFrame /\ IsCreateKind(Cur.kind)
     /\ Pop(TRUE, FALSE)
     /\ code' = [code EXCEPT ![Cur.self] = "stop"]
     /\ Log(Rec("ret", Cur.self, "-", 0, 0, 0, NoC), MkObs(bal, NEtx(etx), wq, lock, 1, 1, "ok"), 1)
@@ -362,22 +432,32 @@ Restore(sn) ==
     /\ gh' = [gh EXCEPT !.out = sn.out, !.credits = sn.credits, !.burnt = sn.burnt]
 
 \* REVERT / any exceptional halt (INVALID, out of gas): state back to the snapshot, status 0
-Unwind(how) ==
+\* (every call kind takes evm.snapshot() on entry and evm.revertToSnapshot() on error: StateDB journal AND the length of
+\* the ETX cache AND the coinbase-lockup deletion lists)
+UnwindC(how, c) ==
     /\ InFrame
     /\ Restore(Cur.snap)
     /\ Pop(FALSE, how = "fail")
-    /\ Log(Rec(how, Cur.self, "-", 0, 0, 0, NoC),
+    /\ Log(Rec(how, Cur.self, "-", 0, 0, 0, c),
            MkObs(Cur.snap.bal, Cur.snap.netx + Prefill, Cur.snap.wq, lock, 0, 1, how), 1)
     /\ UNCHANGED <<lock, op, devs, blockOut, survAll, bdevs, ntx>>
+Unwind(how) == UnwindC(how, NoC)
 Revert == Unwind("revert")
 Fail   == Unwind("fail")
+
+\* core/vm/interpreter.go: in a read-only context every instruction flagged `writes` (SSTORE, LOGn, CREATE, CREATE2,
+\* SELFDESTRUCT, ETX, CONVERT, ...) and a CALL with non-zero value halt the frame exceptionally (ErrWriteProtection)
+\* BEFORE anything is executed or charged.  The record names the instruction so that the driver compiles it.
+WriteProtected(opk) ==
+    /\ InStatic /\ opk \in AllWpOps
+    /\ UnwindC("fail", [k |-> "wp", op |-> opk])
 
 \* DEVIATION (F5).  evm.create: init code returns more code than the remaining gas can pay for
 \* (ErrCodeStoreOutOfGas).  The error is reported (CREATE pushes 0 / the creation transaction is "failed") but the
 \* state is NOT reverted (`if err != nil && err != ErrCodeStoreOutOfGas`): account, endowment and every effect of
 \* the init code stay; a failed transaction's receipt drops the ETXs although their debits stay.
 Create_CodeStoreOOG_NotReverted ==
-    /\ InFrame /\ Cur.kind = "create"
+    /\ InFrame /\ IsCreateKind(Cur.kind)
     /\ Pop(FALSE, FALSE)
     /\ devs' = devs \cup {"create-codestore-oog"}
     /\ Log(Rec("retoog", Cur.self, "-", 0, 0, 0, NoC) @@ [dev |-> "create-codestore-oog"],
@@ -387,7 +467,7 @@ Create_CodeStoreOOG_NotReverted ==
 \* opSuicide: balance to the beneficiary, rent refund (once per account after the fork, every time before),
 \* account marked, balance zeroed.  Self-destruct to self destroys the balance (burn).
 SelfDestruct(b) ==
-    /\ InFrame /\ ~Cur.starved /\ b \in Acct
+    /\ InFrame /\ ~Cur.starved /\ b \in Acct /\ ~Cur.static
     /\ LET s  == Cur.self
            x  == bal[s]
            r  == IF ~PostSD(tx.rg) \/ s \notin sui THEN Rent ELSE 0
@@ -419,8 +499,9 @@ AddOvf(v, f) == v = MAXU /\ f # 0
 WrapAdd(v, f) == IF f = BIG THEN BIG ELSE IF v = MAXU THEN (IF f = 0 THEN MAXU ELSE f - 1) ELSE v + f
 Affordable(s, t) == t \notin {MAXU, BIG} /\ t <= bal[s]
 
+\* (ETX and CONVERT are `writes` instructions: not available in a read-only context, see WriteProtected)
 Begin(k, c) ==
-    /\ CanOp /\ k \in OpKinds
+    /\ CanOp /\ k \in OpKinds /\ ~(Cur.static /\ k \in {"ETX", "CONVERT"})
     /\ frames' = Bump
     /\ op' = [kind |-> k, pc |-> "start", self |-> Cur.self, c |-> c, tot |-> 0, fee |-> 0,
               exit |-> "-", status |-> -1, pushed |-> 0, dev |-> "-",
@@ -566,15 +647,18 @@ XCALL_Append        == At("XCALL", "append") /\ AppendEtx(EtxRec("XCALL", op.c.a
 \* Before ShaEquivalentDifficultyForkBlock an error of the precompile is NOT reverted by evm.Call.
 LOCKUP_Exit(name, debited) ==
     IF LockupRevert(tx.rg) \/ ~debited THEN ExitReverted(name) ELSE ExitDirty(name, 1)
+\* RunLockupContract refuses everything in a read-only context (a zero-value CALL is not a write for the interpreter,
+\* so the lockup contract checks evm.interpreter.readOnly itself): ErrWriteProtection, status word 0, nothing changed
 UNWRAP_Begin(c) == Begin("UNWRAP", c)
-UNWRAP_FailGas      == At("UNWRAP", "start") /\ op.c.gl = "gtavail" /\ ExitReverted("gas")
-UNWRAP_GasOk        == At("UNWRAP", "start") /\ op.c.gl # "gtavail" /\ Goto("dest")
+UNWRAP_FailReadOnly == At("UNWRAP", "start") /\ InStatic /\ ExitClean("write-protection")
+UNWRAP_FailGas      == At("UNWRAP", "start") /\ ~InStatic /\ op.c.gl = "gtavail" /\ ExitReverted("gas")
+UNWRAP_GasOk        == At("UNWRAP", "start") /\ ~InStatic /\ op.c.gl # "gtavail" /\ Goto("dest")
 UNWRAP_FailDest     == At("UNWRAP", "dest") /\ ~IsQi(op.c.dest) /\ ExitReverted("not-qi")
 \* A Qi beneficiary outside this zone makes the precompile return common.ErrExternalAddress, the one error every call
 \* opcode passes on to its own frame (`else if err == common.ErrExternalAddress { return nil, err }`): the frame that
 \* called the precompile and ALL its callers are unwound, the transaction fails and all its gas is consumed.
-AbortIdx == LET C == {i \in 1..Len(frames) : frames[i].kind = "create"}
-            IN  IF C = {} THEN 1 ELSE CHOOSE i \in C : \A k \in C : k <= i     \* opCreate does not pass the error on
+AbortIdx == LET C == {i \in 1..Len(frames) : IsCreateKind(frames[i].kind)}
+            IN  IF C = {} THEN 1 ELSE CHOOSE i \in C : \A k \in C : k <= i     \* opCreate / opCreate2 do not pass the error on
 UNWRAP_ExternalBeneficiary_AbortsAllFrames ==
     /\ At("UNWRAP", "dest") /\ op.c.dest = "qiother"
     /\ LET i == AbortIdx
@@ -608,8 +692,9 @@ UNWRAP_Append       == At("UNWRAP", "append") /\ AppendEtx(EtxRec("UNWRAP", op.c
 \* ------------------------------------------------------------------ lockup precompile, 53-byte input:
 \* ClaimCoinbaseLockup.  c.al carries the record class: "match" | "mismatch" (ledger of `to` vs miner).
 CLAIM_Begin(c) == Begin("CLAIM", c)
-CLAIM_FailGas       == At("CLAIM", "start") /\ op.c.gl = "gtavail" /\ ExitReverted("gas")
-CLAIM_GasOk         == At("CLAIM", "start") /\ op.c.gl # "gtavail" /\ Goto("ledger")
+CLAIM_FailReadOnly  == At("CLAIM", "start") /\ InStatic /\ ExitClean("write-protection")
+CLAIM_FailGas       == At("CLAIM", "start") /\ ~InStatic /\ op.c.gl = "gtavail" /\ ExitReverted("gas")
+CLAIM_GasOk         == At("CLAIM", "start") /\ ~InStatic /\ op.c.gl # "gtavail" /\ Goto("ledger")
 CLAIM_FailLedger    == At("CLAIM", "ledger") /\ op.c.al = "mismatch" /\ ExitReverted("ledger-mismatch")
 CLAIM_LedgerOk      == At("CLAIM", "ledger") /\ op.c.al # "mismatch" /\ Goto("record")
 CLAIM_FailNoRecord  == At("CLAIM", "record") /\ lock[op.self] = "none" /\ ExitReverted("no-lockup")
@@ -649,7 +734,7 @@ XGasClass(g) == IF g < IntrinsicGas + TxGas THEN "ltetx" ELSE IF g < IntrinsicGa
 TopXSend ==
     /\ tx.phase = "begun" /\ tx.kind = "xsend" /\ "XCALL" \in OpKinds
     /\ tx' = [tx EXCEPT !.phase = "exec"]
-    /\ frames' = <<Frame(tx.payer, "xsend", Snap)>>
+    /\ frames' = <<Frame(tx.payer, "xsend", Snap, FALSE)>>
     /\ op' = [kind |-> "XCALL", pc |-> "regime", self |-> tx.payer,
               c |-> [dest |-> tx.to, amt |-> tx.v, gl |-> XGasClass(tx.g), fee |-> "zero", al |-> "empty"], tot |-> 0, fee |-> 0,
               exit |-> "-", status |-> -1, pushed |-> 0, dev |-> "-",
@@ -733,10 +818,10 @@ XCALL_Step ==
     \/ XCALL_FailBelowMin \/ XCALL_DestOk \/ XCALL_FailGasEtx \/ XCALL_FailGasTx \/ XCALL_GasOk \/ XCALL_Debit
     \/ XCALL_FailCacheFull \/ XCALL_IndexOk \/ XCALL_FailIneligible \/ XCALL_EligibleOk \/ XCALL_Append
 UNWRAP_Step ==
-    \/ UNWRAP_FailGas \/ UNWRAP_GasOk \/ UNWRAP_FailDest \/ UNWRAP_ExternalBeneficiary_AbortsAllFrames \/ UNWRAP_DestOk \/ UNWRAP_FailNoBalance
+    \/ UNWRAP_FailReadOnly \/ UNWRAP_FailGas \/ UNWRAP_GasOk \/ UNWRAP_FailDest \/ UNWRAP_ExternalBeneficiary_AbortsAllFrames \/ UNWRAP_DestOk \/ UNWRAP_FailNoBalance
     \/ UNWRAP_FailBalance \/ UNWRAP_BalanceOk \/ UNWRAP_Debit \/ UNWRAP_FailCacheFull \/ UNWRAP_IndexOk \/ UNWRAP_Append
 CLAIM_Step ==
-    \/ CLAIM_FailGas \/ CLAIM_GasOk \/ CLAIM_FailLedger \/ CLAIM_LedgerOk \/ CLAIM_FailNoRecord \/ CLAIM_FailLocked
+    \/ CLAIM_FailReadOnly \/ CLAIM_FailGas \/ CLAIM_GasOk \/ CLAIM_FailLedger \/ CLAIM_LedgerOk \/ CLAIM_FailNoRecord \/ CLAIM_FailLocked
     \/ CLAIM_RecordOk \/ CLAIM_Delete \/ CLAIM_FailAfterDelete_CacheFull \/ CLAIM_IndexOk \/ CLAIM_Append
 OpStep ==
     \/ op.kind = "ETX" /\ ETX_Step
@@ -748,12 +833,12 @@ OpStep ==
 TxStart ==
     \/ \E payer \in EOAs \cup {"Q"}, kind \in TxKinds \ {"inbound"}, v \in TxValues, g \in GasLimits, p \in Prices,
           rg \in Regimes, pf \in Prefills :
-          \/ kind = "call"   /\ \E t \in Acct \ {"N"} : TxBegin(payer, kind, t, v, g, p, rg, pf)
+          \/ kind = "call"   /\ \E t \in TxTargetSet : TxBegin(payer, kind, t, v, g, p, rg, pf)
           \/ kind = "create" /\ TxBegin(payer, kind, "N", v, g, p, rg, pf)
           \/ kind = "sdata"  /\ v = 0 /\ TxBegin(payer, kind, payer, 0, g, p, rg, pf)
           \/ kind = "kquai"  /\ v = 0 /\ TxBegin(payer, kind, "Q", 0, g, p, rg, pf)
           \/ kind = "xsend"  /\ pf = 0 /\ \E d \in DestClasses \ {"inscope"}, xg \in XGasLimits : TxBegin(payer, kind, d, v, xg, p, rg, 0)
-    \/ \E t \in Acct \ {"N", "Z"}, v \in TxValues, glc \in {"ok", "toohigh"}, rg \in Regimes, pf \in Prefills :
+    \/ \E t \in TxTargetSet \ {"Z"}, v \in TxValues, glc \in {"ok", "toohigh"}, rg \in Regimes, pf \in Prefills :
           EtxStage(t, v, glc, rg, pf)
 
 Next ==
@@ -763,10 +848,15 @@ Next ==
           \/ \E b \in Acct \ {"N"} : TxSelfDestructByData(b, IntrinsicGas)
           \/ \E dc \in {"freeze", "garbage"} : TxKQuaiControl(dc, IntrinsicGas)
     \/ InFrame /\
-          \/ \E t \in Acct \ {"N"}, v \in CallValues : Call(t, v)
-          \/ \E v \in CallValues : Create(v) \/ Create_NoAddress(v)
+          \/ "call" \in FrameKinds     /\ \E t \in CallTargetSet, v \in CallValues : Call(t, v)
+          \/ "delegate" \in FrameKinds /\ \E t \in CallTargetSet : DelegateCall(t)
+          \/ "callcode" \in FrameKinds /\ \E t \in CallTargetSet, v \in CallValues : CallCode(t, v)
+          \/ "static" \in FrameKinds   /\ \E t \in CallTargetSet : StaticCall(t)
+          \/ "create" \in FrameKinds   /\ \E v \in CallValues : Create(v) \/ Create_NoAddress(v)
+          \/ "create2" \in FrameKinds  /\ \E v \in CallValues : Create2(v)
           \/ Stop \/ ReturnCode \/ Revert \/ Fail \/ Create_CodeStoreOOG_NotReverted
-          \/ \E b \in Acct \ {"N"} : SelfDestruct(b)
+          \/ \E b \in BenefSet : SelfDestruct(b)
+          \/ \E k \in WpOps : WriteProtected(k)
           \/ OpBegin
     \/ op.kind # "none" /\ (OpStep \/ OpDone)
     \/ tx.phase = "ending" /\ \E u \in UsedSet : TxEnd(u)
